@@ -28,9 +28,10 @@ CP1252 = [bytes([i]).decode("cp1252") for i in range(1, 256) if i not in (0x81, 
 
 
 class Values:
-    def __init__(self, r=0, specials=True):
+    def __init__(self, r=0, specials=True, zero_new=False):
         self.r = r
         self.specials = specials
+        self.zero_new = zero_new  # ids 900..999 (samples that appear in a mutant) become exactly 0.0
         self.f = {}  # (ty, id) -> value
         self.fr = {}  # (ty, bits) -> id
         self.i = {}
@@ -42,6 +43,8 @@ class Values:
     # ------------------------------------------------------------ floats
     def flt(self, ty, vid):
         key = (ty, vid)
+        if self.zero_new and 900 <= vid < 1000:
+            return np.float32(0.0) if ty == "f32" else np.float64(0.0)
         if key in self.f:
             return self.f[key]
         pool = F32_SPECIALS if ty == "f32" else F64_SPECIALS
